@@ -130,6 +130,7 @@ static inline ref::Layout gen_layout(const Table& t, const LayoutOpts& lo) {
     L.rng_seed = draw(0xFFFFFFFFu);
     L.long_form = draw(6) == 5; L.junk_fields = draw(4) == 3; L.kv_meta = draw(4) == 3; L.exotic_snappy = draw(3) == 2;
     L.column_orders = draw(4) != 3; L.ordinals = draw(4) != 3; L.version = draw(2) ? 2 : 1;
+    if (draw(5) == 4) L.root_rep = (int)draw(3);
     if (draw(5) == 4) L.created_by = draw(2) ? "" : "parquet-mr version 1.12.3 (build f8dced182c4c1fbdec6ccb3185537b5a01e6ed6b)";
     for (auto& rg : t.rgs) for (size_t c = 0; c < t.cols.size(); c++) {
         ref::ChunkLayout cl;
@@ -148,7 +149,7 @@ static inline ref::Layout gen_layout(const Table& t, const LayoutOpts& lo) {
 }
 
 static inline std::string describe(const Table& t, const ref::Layout& L) {
-    std::string s = sim::fmt("peer codec=%d%s%s%s cols=[", L.codec, L.long_form ? " longform" : "", L.junk_fields ? " junk" : "", L.exotic_snappy ? " exotic-snappy" : "");
+    std::string s = sim::fmt("peer codec=%d%s%s%s cols=[", L.codec, L.long_form ? " longform" : "", L.junk_fields ? " junk" : "", L.exotic_snappy ? " exotic-snappy" : ""); if (L.root_rep >= 0) s += sim::fmt(" rootrep=%d", L.root_rep);
     for (size_t i = 0; i < t.cols.size() && i < 10; i++) { auto& c = t.cols[i]; s += sim::fmt("%s%s d%d r%d", i ? "," : "", type_name(c.type), c.max_def, c.max_rep); }
     if (t.cols.size() > 10) s += sim::fmt(",..%zu", t.cols.size());
     s += "] chunks=[";
